@@ -4,3 +4,4 @@ import SmtpV.Props.C09
 #print axioms SmtpV.Props.C09.C09_empty_initial_response
 #print axioms SmtpV.Props.C09.C09_never_on_insecure_connection
 #print axioms SmtpV.Props.C09.C09_at_most_once
+#print axioms SmtpV.Props.C09.C09_client_exchange_rules
